@@ -84,8 +84,11 @@ def gen_truth(rng, n_events=None, dt=None, noise=0.0, datum=0.0, isolated=0):
     NZ = (160 if (n_events or 0) <= 9 else 40 * (n_events + 2)) + 12 * isolated
     top = float(rng.randint(-40, 120)) / 4 + datum
     Z = [top]
+    # three records in ten fall by decimal amounts (0.3, 0.7, ... mm per step): levels and crossing positions are then
+    # not binary fractions and every sum and mean rounds, as with field data
+    drops = [0.5, 0.75, 1.0, 1.25, 1.5, 2.0, 3.0] if rng.random() < 0.7 else [0.3, 0.7, 1.1, 1.3, 1.9, 2.3, 0.9]
     for _ in range(NZ):
-        Z.append(Z[-1] - rng.choice([0.5, 0.75, 1.0, 1.25, 1.5, 2.0, 3.0]))
+        Z.append(Z[-1] - rng.choice(drops))
     s, j = 0.25, (2.0 if not noise else 3600.0 / dt)
     n_events = n_events or rng.randint(3, 9)
     NZ0 = NZ - 12 * isolated
@@ -135,6 +138,78 @@ def gen_truth(rng, n_events=None, dt=None, noise=0.0, datum=0.0, isolated=0):
         level = [z + round(rng.uniform(-noise, noise) * 8) / 8 for z in level]
     et = [rng.choice([0.05, 0.1, 0.15, 0.2, 0.25]) for _ in range(7)]
     return Truth(dt, t0, sy, Z, rain, level, et, events, s, j)
+
+
+def gen_long_truth(rng, n_events=None):
+    """A site with a long dry season: hourly record, a few storms separated by dry spells of one to three months
+    with the level falling a fraction of a millimetre per hour, so that the master recession curve is tens of
+    millions of seconds long (elapsed times of 1e7 s, offsets of the same size)."""
+    dt = 3600
+    t0 = (rng.randint(631152000, 1893456000) // dt) * dt
+    sy = rng.choice([0.125, 0.25, 0.5])
+    n_events = n_events or rng.randint(4, 7)
+    NZ = 2200 * (n_events + 1)
+    top = float(rng.randint(-40, 120)) / 4
+    Z = [top]
+    for _ in range(NZ):
+        Z.append(Z[-1] - rng.choice([0.15, 0.1, 0.3, 0.125]))      # (decimal rates: crossing times are not binary fractions)
+    pos = rng.randint(200, 600)
+    level, rain, events = [Z[pos]], [], []
+    for ev in range(n_events):
+        m = max(0, pos - rng.randint(150, 500))
+        rise = Z[m] - Z[pos]
+        qn = rng.randint(2, 4)
+        per = [round(rise / qn * 8) / 8] * (qn - 1)
+        per.append(rise - sum(per))
+        for p_ in per:
+            rain.append(sy * p_ * 3600.0 / dt)
+            level.append(level[-1] + p_)
+        pos = m
+        events.append(("storm", qn, m))
+        rain.append(0.25)
+        pos += 1
+        level.append(Z[pos])
+        L = min(rng.randint(700, 2000), NZ - pos - 1)
+        for _ in range(L):
+            rain.append(0.0)
+            pos += 1
+            level.append(Z[pos])
+        events.append(("dry", L, pos))
+    rain = (rain + [0.0] * len(level))[:len(level)]
+    et = [rng.choice([0.05, 0.1, 0.15, 0.2, 0.25]) for _ in range(7)]
+    return Truth(dt, t0, sy, Z, rain, level, et, events, 0.25, 2.0)
+
+
+def many_spells_rows(rng, n_spells):
+    """(rows, s, j, level): a multi-year hourly record of `n_spells` short dry spells separated by single drizzle
+    steps (each spell is an interstorm interval of its own), with a real storm every 700 spells."""
+    dt, s, j = 3600, 1.0, 8.0
+    rain, level = [], [0.0]
+    for i in range(n_spells):
+        L = rng.randint(2, 6)
+        fall = rng.choice([0.7, 0.9, 1.1, 1.3])
+        for _ in range(L):
+            rain.append(0.0)
+            level.append(level[-1] - fall)
+        if i % 700 == 350:
+            # a real storm: two heavy steps lifting the level well above the rise threshold
+            up = float(L) + 24.0
+            rain += [6.0, 6.0]
+            level += [level[-1] + up / 2, level[-1] + up]
+            rain.append(0.5)
+            level.append(level[-1] - 1.0)
+            for _ in range(24):
+                rain.append(0.0)
+                level.append(level[-1] - 1.0)
+        else:
+            rain.append(0.5)                     # drizzle: below the storm threshold, level back up below the rise threshold
+            level.append(level[-1] + L * fall - rng.choice([-0.2, 0.0, 0.25, 0.4]) if abs(level[-1]) < 40 else
+                         level[-1] + L * fall - (0.5 if level[-1] > 0 else -0.5))
+    rain = (rain + [0.0] * len(level))[:len(level)]
+    t0 = 1262304000
+    rows = ([(t0 + i * dt, v) for i, v in enumerate(rain)], [(t0 + i * dt, 0.1) for i in range(len(level) + 2)],
+            [(t0 + i * dt, v) for i, v in enumerate(level)])
+    return rows, s, j, level
 
 
 def q(v):
